@@ -133,6 +133,16 @@ def _child_main(fn, arg, wfd):
         os._exit(status)
 
 
+def _die_with_parent():
+    """In a forked child: be killed when the parent goes (a run killed for exceeding its time limit must not leave its own forks running)."""
+    try:
+        import ctypes
+
+        ctypes.CDLL("libc.so.6", use_errno=True).prctl(1, int(signal.SIGKILL))      # PR_SET_PDEATHSIG
+    except Exception:  # noqa: BLE001,S110
+        pass
+
+
 def _fork_with_retry(attempts: int = 8):
     """os.fork(), retried with back-off when the machine is momentarily out of processes or memory (EAGAIN / ENOMEM under heavy load)."""
     delay = 0.2
@@ -160,6 +170,7 @@ class ForkPool:
         sys.stderr.flush()
         pid = _fork_with_retry()
         if pid == 0:
+            _die_with_parent()
             os.close(rfd)
             for info in self.active.values():
                 try:
@@ -244,6 +255,7 @@ def fork_call(fn, arg, timeout=600.0):
     sys.stderr.flush()
     pid = _fork_with_retry()
     if pid == 0:
+        _die_with_parent()
         os.close(rfd)
         status = 0
         try:
